@@ -135,7 +135,7 @@ def impl_tokenize(s):
 # ----------------------------------------------------------------------------- generator (grammar AST)
 
 NAMES = ["a", "b", "c", "d", "x1", "y", "x", "z.w", "A_b"]
-QUOTED = ["a b", "a+b", "x:y", "q|r~s", "2nd", "é", "p(q"]
+QUOTED = ["a b", "a+b", "x:y", "q|r~s", "2nd", "é", "p(q", "~", "|"]
 CALLS = ["f(x)", "np.log( a )", "C(b, contr.treatment)", "g(a,b )", "f('a b' )", 'h(x, "q")', "center(a)", "f(g(a) + 1)"]
 BRACES = ["{a+1}", "{ a * 2 }", "{a|b}", "{x[0]}", "{ [1,2][1] }"]
 
